@@ -274,6 +274,30 @@ def getitem (c i : V) : PyM V :=
         | none => .error .keyError
   | _ => .error .typeError
 
+/-! primitives the translated `MapType.get` (Cel.Gen.Coll.mapGet) is written in; Python's `None` is `V.null` -/
+
+/-- `key in self` on a `dict` -/
+def dictContains (k : V) (kvs : List (V × V)) : PyM Bool := do
+  match (← lookup k kvs) with
+  | some _ => .ok true
+  | none => .ok false
+
+/-- `dict.get(self, key, default)` -/
+def dictGetD (kvs : List (V × V)) (k d : V) : PyM V := do
+  match (← lookup k kvs) with
+  | some v => .ok v
+  | none => .ok d
+
+/-- `dict.__getitem__(self, key)` -/
+def dictGetitem (kvs : List (V × V)) (k : V) : PyM V := do
+  match (← lookup k kvs) with
+  | some v => .ok v
+  | none => .error .keyError
+
+/-- `x is None` -/
+def V.isNone : V → Bool
+  | .null => true | _ => false
+
 /-- exception classes turned into error values by `Evaluator.member_index` -/
 def indexHandlers : List Exc := [.typeError, .keyError, .indexError]
 
@@ -447,6 +471,22 @@ def vlt (a b : V) : PyM Bool :=
   | .dbl a, .dbl b => .ok (a < b)
   | _, _ => .error .typeError
 
+/-- `a <= b`: on doubles IEEE `<=` (false whenever a NaN is involved — not the negation of `>`);
+on the totally ordered kinds `not (b < a)` -/
+def vle (a b : V) : PyM Bool :=
+  match a, b with
+  | .dbl a, .dbl b => .ok (a <= b)
+  | a, b => (fun x => !x) <$> vlt b a
+
+/-- `a != b` raises where `ListType.__ne__` / `MapType.__ne__` answer a `None` operand with `TypeError`
+(their `__eq__` returns `False` there) -/
+def neRaises : V → V → Bool
+  | .null, .list _ => true
+  | .list _, .null => true
+  | .null, .map _ => true
+  | .map _, .null => true
+  | _, _ => false
+
 def arith (op : BOp) (a b : V) : PyM V :=
   match op, a, b with
   | .add, .int a, .int b => .int <$> IntOps.add a b
@@ -488,11 +528,12 @@ def arithErrRight (op : BOp) (a : V) : PyM V :=
 def binop (op : BOp) (a b : V) : PyM V :=
   match op with
   | .eq => if a.isErr then .ok a else if b.isErr then .ok b else (fun x => .bool x) <$> veq a b
-  | .ne => if a.isErr then .ok a else if b.isErr then .ok b else (fun x => .bool !x) <$> veq a b
+  | .ne => if a.isErr then .ok a else if b.isErr then .ok b
+           else if neRaises a b then .error .typeError else (fun x => .bool !x) <$> veq a b
   | .lt => if a.isErr then .ok a else if b.isErr then .ok b else .bool <$> vlt a b
   | .gt => if a.isErr then .ok a else if b.isErr then .ok b else .bool <$> vlt b a
-  | .le => if a.isErr then .ok a else if b.isErr then .ok b else (fun x => .bool !x) <$> vlt b a
-  | .ge => if a.isErr then .ok a else if b.isErr then .ok b else (fun x => .bool !x) <$> vlt a b
+  | .le => if a.isErr then .ok a else if b.isErr then .ok b else .bool <$> vle a b
+  | .ge => if a.isErr then .ok a else if b.isErr then .ok b else .bool <$> vle b a
   | .in_ => vin a b
   | op => if a.isErr then .ok a else if b.isErr then arithErrRight op a else arith op a b
 
